@@ -453,7 +453,46 @@ func (e *Explorer) modelVector() []replayItem {
 			}
 		}
 	}
+	for _, c := range e.atomConsts {
+		vars = append(vars, c.rank)
+	}
 	m := e.solver.Values(vars)
+	// atoms: derive concrete strings that respect the model's rank order
+	type rankedConst struct {
+		rank int64
+		s    string
+	}
+	consts := []rankedConst{{0, ""}}
+	for _, c := range e.atomConsts {
+		consts = append(consts, rankedConst{int64(m[c.rank.name]), c.s})
+	}
+	sort.Slice(consts, func(i, j int) bool { return consts[i].rank < consts[j].rank })
+	var atomRanks []int64
+	for _, nd := range e.nondets {
+		if nd.Kind == "atom" {
+			atomRanks = append(atomRanks, int64(m[nd.term.name]))
+		}
+	}
+	sort.Slice(atomRanks, func(i, j int) bool { return atomRanks[i] < atomRanks[j] })
+	atomString := func(r int64) string {
+		base := ""
+		for _, c := range consts {
+			if c.rank == r {
+				return c.s
+			}
+			if c.rank < r {
+				base = c.s
+			}
+		}
+		idx := 0
+		for i, x := range atomRanks {
+			if x == r {
+				idx = i
+				break
+			}
+		}
+		return fmt.Sprintf("%s\x01%04d", base, idx)
+	}
 	val := func(t *Term) int64 {
 		if t.isConst() {
 			return t.sval()
@@ -472,6 +511,11 @@ func (e *Explorer) modelVector() []replayItem {
 	for _, nd := range e.nondets {
 		it := replayItem{Name: nd.Name, Kind: nd.Kind}
 		switch {
+		case nd.Kind == "atom":
+			it.Bytes = []int{}
+			for _, b := range []byte(atomString(int64(m[nd.term.name]))) {
+				it.Bytes = append(it.Bytes, int(b))
+			}
 		case nd.useConc:
 			it.Int = nd.conc
 		case nd.terms != nil || nd.Kind == "string" || nd.Kind == "bytes":
